@@ -83,7 +83,7 @@ theorem seqOutFrom_spec {α} (eq : α → α → Bool) (hsym : ∀ a b, eq a b =
     (dl dr : Bool) (ql qr : List α)
     (hone : ql = [] ∨ qr = []) (hdl : dl = true → qr = []) (hdr : dr = true → ql = [])
     (hnb : ¬ (dl = true ∧ dr = true)) :
-    seqOutFrom (fun a b => .ok (eq a b)) lag ⟨dl, dr, ⟨dl, dr, ql, qr⟩, false⟩ tr
+    seqOutFrom (fun a b => .ok (eq a b)) lag ⟨dl, dr, ⟨dl, dr, ql, qr, false⟩, false⟩ tr
       = specOut (seqSpec eq (ql ++ restE dl (sideOf .L tr)) (qr ++ restE dr (sideOf .R tr))
           (dl || isDone (sideOf .L tr)) (dr || isDone (sideOf .R tr))) := by
   induction tr generalizing dl dr ql qr with
@@ -122,21 +122,21 @@ theorem seqOutFrom_spec {α} (eq : α → α → Bool) (hsym : ∀ a b, eq a b =
             by_cases hv : eq v x = true
             · have hx : eq x v = true := by rw [hsym]; exact hv
               have := ih hne' false dr [] qr' (Or.inl rfl) (by simp) (by simp) (by simp)
-              simpa [seqStep, SeqRun.up, seqHandle, hv, hx] using this
+              simpa [seqStep, SeqRun.up, seqHandle, seqHandleU, emitD, hv, hx] using this
             · have hx : eq x v = false := by rw [hsym]; simpa using hv
               simp only [Bool.not_eq_true] at hv
               have hd := seqOutFrom_down (fun a b => (.ok (eq a b) : Except Err Bool)) lag
-              simp [seqStep, SeqRun.up, seqHandle, hv, hx, decided, deliver, Notif.isTerminal, hd, specOut]
+              simp [seqStep, SeqRun.up, seqHandle, seqHandleU, emitD, hv, hx, decided, deliver, Notif.isTerminal, hd, specOut]
           | nil =>
             cases dr with
             | true =>
               have hql : ql = [] := hdr rfl
               subst hql
               have hd := seqOutFrom_down (fun a b => (.ok (eq a b) : Except Err Bool)) lag
-              simp [seqStep, SeqRun.up, seqHandle, decided, deliver, Notif.isTerminal, hd, specOut]
+              simp [seqStep, SeqRun.up, seqHandle, seqHandleU, emitD, decided, deliver, Notif.isTerminal, hd, specOut]
             | false =>
               have := ih hne' false false (ql ++ [x]) [] (Or.inr rfl) (by simp) (by simp) (by simp)
-              simpa [seqStep, SeqRun.up, seqHandle] using this
+              simpa [seqStep, SeqRun.up, seqHandle, seqHandleU, emitD] using this
       | completed =>
         cases dl with
         | true =>
@@ -148,22 +148,22 @@ theorem seqOutFrom_spec {α} (eq : α → α → Bool) (hsym : ∀ a b, eq a b =
             cases qr with
             | cons v qr' =>
               have hd := seqOutFrom_down (fun a b => (.ok (eq a b) : Except Err Bool)) lag
-              simp [seqStep, SeqRun.up, seqHandle, decided, deliver, Notif.isTerminal, hd, specOut]
+              simp [seqStep, SeqRun.up, seqHandle, seqHandleU, emitD, decided, deliver, Notif.isTerminal, hd, specOut]
             | nil =>
               cases dr with
               | true =>
                 have hd := seqOutFrom_down (fun a b => (.ok (eq a b) : Except Err Bool)) lag
-                simp [seqStep, SeqRun.up, seqHandle, decided, deliver, Notif.isTerminal, hd, specOut]
+                simp [seqStep, SeqRun.up, seqHandle, seqHandleU, emitD, decided, deliver, Notif.isTerminal, hd, specOut]
               | false =>
                 have := ih hne' true false [] [] (Or.inl rfl) (by simp) (by simp) (by simp)
-                simpa [seqStep, SeqRun.up, seqHandle, Notif.isTerminal] using this
+                simpa [seqStep, SeqRun.up, seqHandle, seqHandleU, emitD, Notif.isTerminal] using this
           | cons y ql' =>
             have hqr : qr = [] := by rcases hone with h | h; cases h; exact h
             subst hqr
             have hdr' : dr = false := by cases dr; rfl; exact absurd (hdr rfl) (by simp)
             subst hdr'
             have := ih hne' true false (y :: ql') [] (Or.inr rfl) (by simp) (by simp) (by simp)
-            simpa [seqStep, SeqRun.up, seqHandle, Notif.isTerminal] using this
+            simpa [seqStep, SeqRun.up, seqHandle, seqHandleU, emitD, Notif.isTerminal] using this
     | R =>
       cases n with
       | error e => exact absurd rfl (hne _ List.mem_cons_self e)
@@ -179,20 +179,20 @@ theorem seqOutFrom_spec {α} (eq : α → α → Bool) (hsym : ∀ a b, eq a b =
             subst hqr
             by_cases hv : eq v x = true
             · have := ih hne' dl false ql' [] (Or.inr rfl) (by simp) (by simp) (by simp)
-              simpa [seqStep, SeqRun.up, seqHandle, hv] using this
+              simpa [seqStep, SeqRun.up, seqHandle, seqHandleU, emitD, hv] using this
             · simp only [Bool.not_eq_true] at hv
               have hd := seqOutFrom_down (fun a b => (.ok (eq a b) : Except Err Bool)) lag
-              simp [seqStep, SeqRun.up, seqHandle, hv, decided, deliver, Notif.isTerminal, hd, specOut]
+              simp [seqStep, SeqRun.up, seqHandle, seqHandleU, emitD, hv, decided, deliver, Notif.isTerminal, hd, specOut]
           | nil =>
             cases dl with
             | true =>
               have hqr : qr = [] := hdl rfl
               subst hqr
               have hd := seqOutFrom_down (fun a b => (.ok (eq a b) : Except Err Bool)) lag
-              simp [seqStep, SeqRun.up, seqHandle, decided, deliver, Notif.isTerminal, hd, specOut]
+              simp [seqStep, SeqRun.up, seqHandle, seqHandleU, emitD, decided, deliver, Notif.isTerminal, hd, specOut]
             | false =>
               have := ih hne' false false [] (qr ++ [x]) (Or.inl rfl) (by simp) (by simp) (by simp)
-              simpa [seqStep, SeqRun.up, seqHandle] using this
+              simpa [seqStep, SeqRun.up, seqHandle, seqHandleU, emitD] using this
       | completed =>
         cases dr with
         | true =>
@@ -204,22 +204,22 @@ theorem seqOutFrom_spec {α} (eq : α → α → Bool) (hsym : ∀ a b, eq a b =
             cases ql with
             | cons v ql' =>
               have hd := seqOutFrom_down (fun a b => (.ok (eq a b) : Except Err Bool)) lag
-              simp [seqStep, SeqRun.up, seqHandle, decided, deliver, Notif.isTerminal, hd, specOut]
+              simp [seqStep, SeqRun.up, seqHandle, seqHandleU, emitD, decided, deliver, Notif.isTerminal, hd, specOut]
             | nil =>
               cases dl with
               | true =>
                 have hd := seqOutFrom_down (fun a b => (.ok (eq a b) : Except Err Bool)) lag
-                simp [seqStep, SeqRun.up, seqHandle, decided, deliver, Notif.isTerminal, hd, specOut]
+                simp [seqStep, SeqRun.up, seqHandle, seqHandleU, emitD, decided, deliver, Notif.isTerminal, hd, specOut]
               | false =>
                 have := ih hne' false true [] [] (Or.inl rfl) (by simp) (by simp) (by simp)
-                simpa [seqStep, SeqRun.up, seqHandle, Notif.isTerminal] using this
+                simpa [seqStep, SeqRun.up, seqHandle, seqHandleU, emitD, Notif.isTerminal] using this
           | cons y qr' =>
             have hql : ql = [] := by rcases hone with h | h; exact h; cases h
             subst hql
             have hdl' : dl = false := by cases dl; rfl; exact absurd (hdl rfl) (by simp)
             subst hdl'
             have := ih hne' false true [] (y :: qr') (Or.inl rfl) (by simp) (by simp) (by simp)
-            simpa [seqStep, SeqRun.up, seqHandle, Notif.isTerminal] using this
+            simpa [seqStep, SeqRun.up, seqHandle, seqHandleU, emitD, Notif.isTerminal] using this
 
 theorem seqSpec_done {α} (eq : α → α → Bool) (ls rs : List α) :
     seqSpec eq ls rs true true = some (listEq eq ls rs) := by
@@ -244,7 +244,7 @@ theorem seqOutFrom_error {α} (eq : α → α → Bool) (hsym : ∀ a b, eq a b 
     (hone : ql = [] ∨ qr = []) (hdl : dl = true → qr = []) (hdr : dr = true → ql = [])
     (hnb : ¬ (dl = true ∧ dr = true))
     (hliveL : sd = .L → dl = false) (hliveR : sd = .R → dr = false) :
-    seqOutFrom (fun a b => .ok (eq a b)) lag ⟨dl, dr, ⟨dl, dr, ql, qr⟩, false⟩ (pre ++ (sd, .error e) :: post)
+    seqOutFrom (fun a b => .ok (eq a b)) lag ⟨dl, dr, ⟨dl, dr, ql, qr, false⟩, false⟩ (pre ++ (sd, .error e) :: post)
       = specOutOr e (seqSpec eq (ql ++ restE dl (sideOf .L pre)) (qr ++ restE dr (sideOf .R pre))
           (dl || isDone (sideOf .L pre)) (dr || isDone (sideOf .R pre))) := by
   have hd := seqOutFrom_down (fun a b => (.ok (eq a b) : Except Err Bool)) lag
@@ -271,11 +271,11 @@ theorem seqOutFrom_error {α} (eq : α → α → Bool) (hsym : ∀ a b, eq a b 
     | L =>
       have : dl = false := hliveL rfl
       subst this
-      simp [seqStep, SeqRun.up, seqHandle, deliver, hd, specOutOr]
+      simp [seqStep, SeqRun.up, seqHandle, seqHandleU, emitD, deliver, hd, specOutOr]
     | R =>
       have : dr = false := hliveR rfl
       subst this
-      simp [seqStep, SeqRun.up, seqHandle, deliver, hd, specOutOr]
+      simp [seqStep, SeqRun.up, seqHandle, seqHandleU, emitD, deliver, hd, specOutOr]
   | cons ev tr ih =>
     have hne' : ∀ ev ∈ tr, ∀ e, ev.2 ≠ .error e := fun ev h => hne ev (List.mem_cons_of_mem _ h)
     have hnc' : ∀ ev ∈ tr, ev ≠ (sd, .completed) := fun ev h => hnc ev (List.mem_cons_of_mem _ h)
@@ -298,19 +298,19 @@ theorem seqOutFrom_error {α} (eq : α → α → Bool) (hsym : ∀ a b, eq a b 
             by_cases hv : eq v x = true
             · have hx : eq x v = true := by rw [hsym]; exact hv
               have := ih hne' hnc' false dr [] qr' (Or.inl rfl) (by simp) (by simp) (by simp) (by simp) hliveR
-              simpa [seqStep, SeqRun.up, seqHandle, hv, hx] using this
+              simpa [seqStep, SeqRun.up, seqHandle, seqHandleU, emitD, hv, hx] using this
             · have hx : eq x v = false := by rw [hsym]; simpa using hv
               simp only [Bool.not_eq_true] at hv
-              simp [seqStep, SeqRun.up, seqHandle, hv, hx, decided, deliver, hd, specOutOr]
+              simp [seqStep, SeqRun.up, seqHandle, seqHandleU, emitD, hv, hx, decided, deliver, hd, specOutOr]
           | nil =>
             cases dr with
             | true =>
               have hql : ql = [] := hdr rfl
               subst hql
-              simp [seqStep, SeqRun.up, seqHandle, decided, deliver, hd, specOutOr]
+              simp [seqStep, SeqRun.up, seqHandle, seqHandleU, emitD, decided, deliver, hd, specOutOr]
             | false =>
               have := ih hne' hnc' false false (ql ++ [x]) [] (Or.inr rfl) (by simp) (by simp) (by simp) (by simp) (by simp)
-              simpa [seqStep, SeqRun.up, seqHandle] using this
+              simpa [seqStep, SeqRun.up, seqHandle, seqHandleU, emitD] using this
       | completed =>
         have hsd : sd ≠ .L := fun h => hnc (.L, .completed) List.mem_cons_self (by rw [h])
         have hL' : sd = .L → true = false := fun h => absurd h hsd
@@ -322,20 +322,20 @@ theorem seqOutFrom_error {α} (eq : α → α → Bool) (hsym : ∀ a b, eq a b 
           cases ql with
           | nil =>
             cases qr with
-            | cons v qr' => simp [seqStep, SeqRun.up, seqHandle, decided, deliver, hd, specOutOr]
+            | cons v qr' => simp [seqStep, SeqRun.up, seqHandle, seqHandleU, emitD, decided, deliver, hd, specOutOr]
             | nil =>
               cases dr with
-              | true => simp [seqStep, SeqRun.up, seqHandle, decided, deliver, hd, specOutOr]
+              | true => simp [seqStep, SeqRun.up, seqHandle, seqHandleU, emitD, decided, deliver, hd, specOutOr]
               | false =>
                 have := ih hne' hnc' true false [] [] (Or.inl rfl) (by simp) (by simp) (by simp) hL' (by simp)
-                simpa [seqStep, SeqRun.up, seqHandle] using this
+                simpa [seqStep, SeqRun.up, seqHandle, seqHandleU, emitD] using this
           | cons y ql' =>
             have hqr : qr = [] := by rcases hone with h | h; cases h; exact h
             subst hqr
             have hdr' : dr = false := by cases dr; rfl; exact absurd (hdr rfl) (by simp)
             subst hdr'
             have := ih hne' hnc' true false (y :: ql') [] (Or.inr rfl) (by simp) (by simp) (by simp) hL' (by simp)
-            simpa [seqStep, SeqRun.up, seqHandle] using this
+            simpa [seqStep, SeqRun.up, seqHandle, seqHandleU, emitD] using this
     | R =>
       cases n with
       | error e' => exact absurd rfl (hne _ List.mem_cons_self e')
@@ -351,18 +351,18 @@ theorem seqOutFrom_error {α} (eq : α → α → Bool) (hsym : ∀ a b, eq a b 
             subst hqr
             by_cases hv : eq v x = true
             · have := ih hne' hnc' dl false ql' [] (Or.inr rfl) (by simp) (by simp) (by simp) hliveL (by simp)
-              simpa [seqStep, SeqRun.up, seqHandle, hv] using this
+              simpa [seqStep, SeqRun.up, seqHandle, seqHandleU, emitD, hv] using this
             · simp only [Bool.not_eq_true] at hv
-              simp [seqStep, SeqRun.up, seqHandle, hv, decided, deliver, hd, specOutOr]
+              simp [seqStep, SeqRun.up, seqHandle, seqHandleU, emitD, hv, decided, deliver, hd, specOutOr]
           | nil =>
             cases dl with
             | true =>
               have hqr : qr = [] := hdl rfl
               subst hqr
-              simp [seqStep, SeqRun.up, seqHandle, decided, deliver, hd, specOutOr]
+              simp [seqStep, SeqRun.up, seqHandle, seqHandleU, emitD, decided, deliver, hd, specOutOr]
             | false =>
               have := ih hne' hnc' false false [] (qr ++ [x]) (Or.inl rfl) (by simp) (by simp) (by simp) (by simp) (by simp)
-              simpa [seqStep, SeqRun.up, seqHandle] using this
+              simpa [seqStep, SeqRun.up, seqHandle, seqHandleU, emitD] using this
       | completed =>
         have hsd : sd ≠ .R := fun h => hnc (.R, .completed) List.mem_cons_self (by rw [h])
         have hR' : sd = .R → true = false := fun h => absurd h hsd
@@ -374,20 +374,20 @@ theorem seqOutFrom_error {α} (eq : α → α → Bool) (hsym : ∀ a b, eq a b 
           cases qr with
           | nil =>
             cases ql with
-            | cons v ql' => simp [seqStep, SeqRun.up, seqHandle, decided, deliver, hd, specOutOr]
+            | cons v ql' => simp [seqStep, SeqRun.up, seqHandle, seqHandleU, emitD, decided, deliver, hd, specOutOr]
             | nil =>
               cases dl with
-              | true => simp [seqStep, SeqRun.up, seqHandle, decided, deliver, hd, specOutOr]
+              | true => simp [seqStep, SeqRun.up, seqHandle, seqHandleU, emitD, decided, deliver, hd, specOutOr]
               | false =>
                 have := ih hne' hnc' false true [] [] (Or.inl rfl) (by simp) (by simp) (by simp) (by simp) hR'
-                simpa [seqStep, SeqRun.up, seqHandle] using this
+                simpa [seqStep, SeqRun.up, seqHandle, seqHandleU, emitD] using this
           | cons y qr' =>
             have hql : ql = [] := by rcases hone with h | h; exact h; cases h
             subst hql
             have hdl' : dl = false := by cases dl; rfl; exact absurd (hdl rfl) (by simp)
             subst hdl'
             have := ih hne' hnc' false true [] (y :: qr') (Or.inl rfl) (by simp) (by simp) (by simp) (by simp) hR'
-            simpa [seqStep, SeqRun.up, seqHandle] using this
+            simpa [seqStep, SeqRun.up, seqHandle, seqHandleU, emitD] using this
 
 /-- the output of the two-source machine does not depend on how promptly the sources are disposed -/
 theorem seqOutFrom_lag {α} (cmp : α → α → Except Err Bool) (tr : List (Side × Notif α)) (st1 st2 : SeqRun α)
